@@ -133,6 +133,22 @@ func renderCrudHarness(spec *synth.Spec, model *sqlModel, ddl string) string {
 			} else {
 				fmt.Fprintf(&sb, "\t\t\t\tDeleteBy: func(db DB, keys []int64) ([]any, []int64, error) { %s; m, err := Delete%ssBy%ss(db, conv...); if err != nil { return nil, nil, err }; return %s, nil, nil },\n", conv, T, c.Name, rowsConv("m", false))
 			}
+			if !c.Nullable {
+				// collection helpers
+				mk := "m := make(" + T + "s" + ", len(rows)); for _, r := range rows { it := r.(" + T + "); m[it." + func() string {
+					if tb.Primary != nil {
+						return tb.Primary.Name
+					}
+					return ""
+				}() + "] = it }"
+				if tb.Primary == nil {
+					mk = "m := make(" + T + "s, 0, len(rows)); for _, r := range rows { m = append(m, r.(" + T + ")) }"
+				}
+				fmt.Fprintf(&sb, "\t\t\t\tKeysOf: func(rows []any) []int64 { %s; got := m.%ss(); out := make([]int64, len(got)); for i, k := range got { out[i] = int64(k) }; return out },\n", mk, c.Name)
+				if !uniqueSingle[c.Name] {
+					fmt.Fprintf(&sb, "\t\t\t\tByKey: func(rows []any) map[int64][]any { %s; out := map[int64][]any{}; for k, sub := range m.By%s() { for _, r := range sub { out[int64(k)] = append(out[int64(k)], r) } }; return out },\n", mk, c.Name)
+				}
+			}
 			if uniqueSingle[c.Name] {
 				fmt.Fprintf(&sb, "\t\t\t\tSelectOneBy: func(db DB, key int64) (any, bool, error) { return Select%sBy%s(db, %s(key)) },\n", T, c.Name, K)
 			}
@@ -174,6 +190,7 @@ func renderCrudHarness(spec *synth.Spec, model *sqlModel, ddl string) string {
 		if tb.Primary != nil {
 			convIDs := fmt.Sprintf("conv := make([]%s, len(ids)); for i, k := range ids { conv[i] = %s(k) }", idT, idT)
 			fmt.Fprintf(&sb, "\t\tInsert: func(db DB, row any) (any, error) { return row.(%s).Insert(db) },\n", T)
+			fmt.Fprintf(&sb, "\t\tIDsOf: func(rows []any) []int64 { m := make(%ss, len(rows)); for _, r := range rows { it := r.(%s); m[it.%s] = it }; got := m.IDs(); out := make([]int64, len(got)); for i, k := range got { out[i] = int64(k) }; return out },\n", T, T, tb.Primary.Name)
 			fmt.Fprintf(&sb, "\t\tSelect: func(db DB, id int64) (any, error) { return Select%s(db, %s(id)) },\n", T, idT)
 			fmt.Fprintf(&sb, "\t\tSelectMany: func(db DB, ids []int64) ([]any, error) { %s; m, err := Select%ss(db, conv...); if err != nil { return nil, err }; return %s, nil },\n", convIDs, T, rowsConv("m", true))
 			fmt.Fprintf(&sb, "\t\tUpdate: func(db DB, row any) (any, error) { return row.(%s).Update(db) },\n", T)
